@@ -1,8 +1,8 @@
 """C12 — quadrature methods (src/math/integration.rs).
 
 S2/S3  the kernels (get_simpson_weight, Steps::value, simpson, simpson2d, quad_simpsons_mem, quad_asr, simpson_adaptive,
-       simpson_adaptive_2d, the Simpson arms of Integrator::integrate{,2d}, their acceptance predicates and their
-       integrand-call counts) are REGENERATED from the source (tools/gen/integration.py -> Gen/Integration.v) and the
+       simpson_adaptive_2d, all five arms of Integrator::integrate{,2d} — the Gauss-Legendre, Clenshaw-Curtis and Gauss-Kronrod
+       ones with the external crates as oracles —, their acceptance predicates and their integrand-call counts) are REGENERATED from the source (tools/gen/integration.py -> Gen/Integration.v) and the
        theorems of Props/C12.v are re-checked over them.
 S4     the translated kernels are run over Q by vm_compute on the harness's inputs and compared with the implementation
        (values, accepted parameters, numbers of integrand calls); the rule each fixed-rule integrator applies is EXTRACTED
@@ -953,12 +953,20 @@ def correspondence(ctx, C, obs):
                     "model_simpson", ck)
             elif m["m"] == "gl" and max(m["degree"], 2) in gl_tables and max(m["degree"], 2) <= 12:
                 xs, ws = gl_tables[max(m["degree"], 2)]
-                add("mg_" + ck["id"], f"vclose {qlit(tol)} (integrate_GaussLegendre Qops (fun _ => {rule_lit(xs, ws)}) (poly {f.q()}) {qlit(a)} {qlit(b)} {m['degree']}) {v}",
+                add("mg_" + ck["id"], f"vclose {qlit(tol)} (integrate_GaussLegendre Qops (rule_oracle Qops (fun _ => {rule_lit(xs, ws)})) (poly {f.q()}) {qlit(a)} {qlit(b)} {m['degree']}) {v}",
                     "model_gl", ck)
             elif m["m"] == "asimp" and len(f.cs) <= 4:      # deeper recursions on raw binary64 inputs are covered by model_asimp (dyadic)
                 add("ma_" + ck["id"], f"(vclose {qlit(tol)} (simpson_adaptive Qops (poly {f.q()}) {qlit(a)} {qlit(b)} {qlit(fr(m['tol']))} {m['depth']}%nat) {v} && "
                                       f"Nat.eqb (simpson_adaptive_calls Qops (poly {f.q()}) ones1 {qlit(a)} {qlit(b)} {qlit(fr(m['tol']))} {m['depth']}%nat) {o['evals']})%bool",
                     "model_asimp", ck)
+        elif k == "separable2" and o and o.get("ok") and finite(o) and ck["method"]["m"] == "gl" and max(ck["method"]["degree"], 2) <= 5 \
+                and max(ck["method"]["degree"], 2) in gl_tables:
+            m, p_, q_ = ck["method"], ck["p"], ck["q"]
+            a, b, c, d = ck["rect"]
+            xs, ws = gl_tables[max(m["degree"], 2)]
+            S = p_.scale(a, b) * q_.scale(c, d)
+            add("mG_" + ck["id"], f"vclose {qlit(Fraction(TOL12 * S))} (integrate2d_GaussLegendre Qops (rule_oracle Qops (fun _ => {rule_lit(xs, ws)})) "
+                                  f"(sep {p_.q()} {q_.q()}) {qlit(a)} {qlit(b)} {qlit(c)} {qlit(d)} {m['degree']}) {cqlit(fval_of(o))}", "model_gl2d", ck)
         elif k == "model_asimp" and o and o.get("ok") and finite(o):
             m, f, a, b = ck["method"], ck["f"], ck["a"], ck["b"]
             tol = Fraction(TOL12 * max(f.scale(a, b), 1e-300))
